@@ -20,7 +20,7 @@ const W0: [f32; 6] = [0.5, -1.25, 2.0, -0.03125, 0.0, 7.0];
 pub fn meta(ctx: &Ctx) -> Meta {
     let d = depth(ctx);
     Meta {
-        rule: format!("optimizer kinds x hyper-parameter lattice (SGD 2, SGDM 8, Adam 4, AdamW 2, RMSprop 16 settings around the defaults, plus 11 away from them: momentum 0 (SGDM's documented default), epsilon 1e-12, epsilon 0.125, betas 0.5/0.9, alpha 0.9, learning rates 0.05..1, momentum 0.99 with dampening 0.5) x ALL gradient sequences over G={{0,+-1e-20,+-1e-3,+-0.5,+-1,+-1e4}} of length {} x ALL non-decreasing step-number sequences over {{1,2,3,5}} x ranks {{vector, matrix, 3-D kernel}} through create->validate->update; 18 element histories per tensor; run-length histories (constant / alternating / one-hot then zeros) to 2048 steps; 24-step varying-gradient histories on wide tensors (vector 70, matrix 2x35, kernel 2x5x7: row lengths that are not multiples of 4 or 8); slot-isolation: all 2^d interleavings of a slot-B update stream into slot A's for 4 slot pairs. Oracles: documented recurrences (f64 + f32 transcription, derived tolerance), rank differential bit-exact, isolation differential bit-exact, finiteness. A state is a node of the history tree (gradient prefix x step-number prefix); non-trivial = node whose history has a non-zero gradient", d),
+        rule: format!("optimizer kinds x hyper-parameter lattice (SGD 2, SGDM 8, Adam 4, AdamW 2, RMSprop 16 settings around the defaults, plus 11 away from them: momentum 0 (SGDM's documented default), epsilon 1e-12, epsilon 0.125, betas 0.5/0.9, alpha 0.9, learning rates 0.05..1, momentum 0.99 with dampening 0.5) x ALL gradient sequences over G={{0,+-1e-20,+-1e-3,+-0.5,+-1,+-1e4}} of length {} x ALL non-decreasing step-number sequences over {{1,2,3,5}} x ranks {{vector, matrix, 3-D kernel}} through create->validate->update; 18 element histories per tensor; run-length histories (constant / alternating / one-hot then zeros) to 2048 steps; 24-step varying-gradient histories on wide tensors (vector 70, matrix 2x35, kernel 2x5x7: row lengths that are not multiples of 4 or 8); re-validation: an optimizer validated two and three times against one validated once, bit-exact; slot-isolation: all 2^d interleavings of a slot-B update stream into slot A's for 4 slot pairs. Oracles: documented recurrences (f64 + f32 transcription, derived tolerance), rank differential bit-exact, isolation differential bit-exact, finiteness. A state is a node of the history tree (gradient prefix x step-number prefix); non-trivial = node whose history has a non-zero gradient", d),
         bound: format!("history depth {} complete for the alphabet; long histories 2048 steps for 33 patterns per setting", d),
         exhaustive: true,
         assumptions: vec![
@@ -408,6 +408,46 @@ fn wide_histories(spec: &OptSpec, rep: &mut Report) {
 }
 
 /// slot isolation: stream A on slot a interleaved with stream B on slot b, all 2^d placements
+/// installing the optimizer twice (validate called again on an already validated optimizer, as happens to the copy a
+/// feedback block receives) must not change the update rule: bit-exact differential against a once-validated one
+fn revalidation(spec: &OptSpec, d: usize, rep: &mut Report) {
+    let seq: Vec<Vec<usize>> = (0..LANES).map(|e| decode(e * 7919 + 29, d)).collect();
+    for rank in 1..=3 {
+        let z = || mk(&rank_shape(rank), &vec![0.0; LANES]);
+        let vectors = || vec![vec![vec![z(), z()]], vec![vec![z()], vec![z()]]];
+        let mut once = make_opt(spec, rank);
+        let mut twice = make_opt(spec, rank);
+        twice.validate(vectors());
+        let mut thrice = twice.clone();
+        thrice.validate(vectors());
+        let (mut w1, mut w2, mut w3): (Vec<f32>, Vec<f32>, Vec<f32>) = ((0..LANES).map(|e| W0[e % 6]).collect(), (0..LANES).map(|e| W0[e % 6]).collect(), (0..LANES).map(|e| W0[e % 6]).collect());
+        for t in 0..d {
+            let g: Vec<f32> = (0..LANES).map(|e| G[seq[e][t]]).collect();
+            rep.transitions += 3;
+            let r = (lib_step(&mut once, rank, 0, (t + 1) as i32, &w1, &g), lib_step(&mut twice, rank, 0, (t + 1) as i32, &w2, &g), lib_step(&mut thrice, rank, 0, (t + 1) as i32, &w3, &g));
+            match r {
+                (Ok(a), Ok(b), Ok(c)) => {
+                    if !crate::util::bits_eq(&a, &b) || !crate::util::bits_eq(&a, &c) {
+                        rep.violate(
+                            format!("C03 {} differs when the optimizer is validated again", spec.kind()),
+                            format!("{} rank {} step {}: validated once {:?}, twice {:?}, three times {:?}", spec.name(), rank, t + 1, &a[..4], &b[..4], &c[..4]),
+                            &Kv::new().put("kind", "revalidate").put("opt", spec.name()).put("depth", d),
+                        );
+                        return;
+                    }
+                    w1 = a;
+                    w2 = b;
+                    w3 = c;
+                }
+                (Err(e), _, _) | (_, Err(e), _) | (_, _, Err(e)) => {
+                    rep.violate(format!("C03 {} update panics", spec.kind()), crate::util::first_line(&e), &Kv::new().put("kind", "revalidate").put("opt", spec.name()).put("depth", d));
+                    return;
+                }
+            }
+        }
+    }
+}
+
 fn isolation(spec: &OptSpec, d: usize, rep: &mut Report) {
     let seq_a: Vec<Vec<usize>> = (0..LANES).map(|e| decode(e * 7919 + 13, d)).collect();
     let seq_b: Vec<Vec<usize>> = (0..LANES).map(|e| decode(e * 104729 + 5, d)).collect();
@@ -480,6 +520,7 @@ pub fn run(ctx: &Ctx) -> Report {
             long_histories(&sets[*s], 2048, &mut r);
             wide_histories(&sets[*s], &mut r);
             isolation(&sets[*s], d.min(5), &mut r);
+            revalidation(&sets[*s], 6, &mut r);
         }
         r
     });
@@ -521,6 +562,7 @@ pub fn replay(_ctx: &Ctx, case: &Kv) -> Report {
         }
         "long" => long_histories(&spec, case.usize("steps"), &mut rep),
         "wide" => wide_histories(&spec, &mut rep),
+        "revalidate" => revalidation(&spec, case.usize("depth"), &mut rep),
         _ => isolation(&spec, case.usize("depth"), &mut rep),
     }
     rep
